@@ -229,13 +229,13 @@ class BackendRegistryState:
         if isinstance(backend, str):
             return self._get_by_name(backend, has_checked_new_imports)
 
-        # If global default backend is specified
-        if len(self.use_stack) > 0:
-            return self.use_stack[-1]
-
         # Other backend parameters are invalid
         if backend is not None:
             raise ValueError("Backend must be either a Backend instance, a string, or None.")
+
+        # If global default backend is specified
+        if len(self.use_stack) > 0:
+            return self.use_stack[-1]
 
         # If no backend is specified, determine backend from tensors
         backends = self._get_by_tensors(tensors, has_checked_new_imports)
